@@ -23,6 +23,6 @@ for p in "$@"; do
     done
   done
   $G check $A --prop $p | tail -1
-  cp "$S/v/claims/$p.quick" "$S/v/claims/$p.thorough" "$V/claims/"
+  cp "$S/v/claims/$p.quick" "$S/v/claims/$p.thorough" "$S/v/claims/$p.all" "$V/claims/"
 done
 rm -rf "$S"
